@@ -3,27 +3,27 @@
 // run: ./check C19 --replay replays/C19/tensor.c19_oob_d3.rs
 /// Test generated for harness `tensor::c19_oob_d3` 
 ///
-/// Check for `assertion`: "assertion failed: idx[i] < self.dims[i]"
+/// Check for `assertion`: "VERIF-REACHED: out-of-range index accepted"
 
 #[test]
-fn kani_concrete_playback_c19_oob_d3_10790106880412892368() {
+fn kani_concrete_playback_c19_oob_d3_1142924243521941513() {
     let concrete_vals: Vec<Vec<u8>> = vec![
-        // 4ul
-        vec![4, 0, 0, 0, 0, 0, 0, 0],
+        // 1ul
+        vec![1, 0, 0, 0, 0, 0, 0, 0],
         // 4ul
         vec![4, 0, 0, 0, 0, 0, 0, 0],
         // 4ul
         vec![4, 0, 0, 0, 0, 0, 0, 0],
         // 0ul
         vec![0, 0, 0, 0, 0, 0, 0, 0],
-        // 0ul
-        vec![0, 0, 0, 0, 0, 0, 0, 0],
-        // 3ul
-        vec![3, 0, 0, 0, 0, 0, 0, 0],
         // 2ul
         vec![2, 0, 0, 0, 0, 0, 0, 0],
-        // 6ul
-        vec![6, 0, 0, 0, 0, 0, 0, 0],
+        // 0ul
+        vec![0, 0, 0, 0, 0, 0, 0, 0],
+        // 0ul
+        vec![0, 0, 0, 0, 0, 0, 0, 0],
+        // 1ul
+        vec![1, 0, 0, 0, 0, 0, 0, 0],
         // 1
         vec![1],
     ];
